@@ -6,7 +6,6 @@ import Oas3Model.Driver.Path
 import Oas3Model.Driver.Client
 import Oas3Model.Driver.Server
 import Oas3Model.Driver.Interop
-import Oas3Model.Driver.ReqInterop
 import Oas3Model.Driver.Graph
 import Oas3Model.Driver.Registry
 import Oas3Model.Driver.Cli
@@ -18,6 +17,7 @@ import Oas3Model.Driver.Compile
 import Oas3Model.Driver.Discr
 import Oas3Model.Driver.Flags
 import Oas3Model.Driver.Inject
+import Oas3Model.Driver.ReqInterop
 import Oas3Model.Driver.Valid
 open Lean Oas3.Driver
 
@@ -29,7 +29,6 @@ def allOps : List (String × Handler) := List.flatten [
   Oas3.Driver.Client.ops,
   Oas3.Driver.Server.ops,
   Oas3.Driver.Interop.ops,
-  Oas3.Driver.ReqInterop.ops,
   Oas3.Driver.Graph.ops,
   Oas3.Driver.Registry.ops,
   Oas3.Driver.Cli.ops,
@@ -41,6 +40,7 @@ def allOps : List (String × Handler) := List.flatten [
   Oas3.Driver.Discr.ops,
   Oas3.Driver.Flags.ops,
   Oas3.Driver.Inject.ops,
+  Oas3.Driver.ReqInterop.ops,
   Oas3.Driver.Valid.ops,
   []]
 
